@@ -1,30 +1,9 @@
-(* Witnesses for the known findings of C08 (known_findings/C08.json): float NaN, str max_len = 0.  Each statement is
-   conditional on a flag computed from the code translated from /repo on this run (true today); after a repair the flag is
-   `false` and the unrestricted statement applies.  The int/float zero-bound defect was repaired (2abc421): its witnesses are gone
-   and Props/C08.v now proves the unrestricted C08_int / C08_float. *)
+(* Witness for the remaining known finding of C08 (known_findings/C08.json): Decimal precision / scale are not enforced by validate.
+   The other defects found by this check were repaired in /repo (2abc421, 5df2d83, d8f353a, 2d5f552); their witnesses are gone and
+   Props/C08.v proves the unrestricted statements. *)
 Require Import PonyV.Base.PyBase PonyV.Model.C08Base PonyV.Gen.C08Conv PonyV.Model.C08Spec PonyV.Proofs.C08IntInit PonyV.Proofs.C08Proofs.
 (* C08Corr: the checkers of the correspondence run; required here so that they are rebuilt with the cone whenever Gen changes *)
 Require PonyV.Model.C08Corr.
-
-(* Optional(float, min=1, max=2) accepts NaN *)
-Theorem C08_float_nan_refuted :
-  real_nan_accepted = true ->
-  exists mn mx, not_nan_opt mn /\ not_nan_opt mx /\ accepts_real mn mx NNan = true /\ ~ num_in_bounds mn mx NNan.
-Proof. exact real_nan_refuted. Qed.
-Print Assumptions C08_float_nan_refuted.
-
-(* Optional(str, 0) (max_len = 0) accepts 'a' *)
-Theorem C08_str_zero_max_len_refuted :
-  str_zero_max_len_ignored = true ->
-  exists a ml s, accepts_str a ml s = true /\ ~ le_opt ml (zlen (str_norm a s)).
-Proof. exact str_zero_max_len_refuted. Qed.
-Print Assumptions C08_str_zero_max_len_refuted.
-
-(* Required(bool) accepts 'x' (any value: validate is bool(val)) *)
-Theorem C08_bool_any_type_refuted : bool_accepts_any_type = true ->
-  exists t r, tag_in t (type_allowed CBool) = false /\ type_dispatch CBool t = TyAccept r.
-Proof. exact bool_any_type_refuted. Qed.
-Print Assumptions C08_bool_any_type_refuted.
 
 (* Optional(Decimal, 5, 2) accepts 123456.789: validate never looks at precision / scale *)
 Theorem C08_decimal_precision_refuted :
